@@ -504,7 +504,7 @@ def viol(ctx, kind, what, replay, found=True, cap=3):
 def stream_tie(ctx, objdir, harness):
     rng = ctx.rng
     todo = []
-    ncase = ctx.n(8, 45)
+    ncase = ctx.n(8, 36)
     for i in range(ncase):
         small = i % 3 != 2
         case = gen_case(rng, rng.randrange(3, 9) if small else rng.randrange(6, 14), small=small)
